@@ -1,5 +1,4 @@
-import Bardolph.Proofs.SimLoops
-import Bardolph.Model.Loader
+import Bardolph.Proofs.SimLoad
 /-!
 # C01 — the compiled code does what the source says (simulation, partial)
 
@@ -187,6 +186,17 @@ theorem C01_gen_sim_program (b : Block) (hb : FragBlock b) (code : List Instr)
   simp only [Vm.finish, hk2.unnamed, List.foldl_nil, State.emit, hk2.trace]
 
 
+/-- **whole scripts, through the loader.**  The same for the image the loader makes of the
+compiled script (`Loader.load`): a script of the fragment has no routines, so the loader leaves
+its code where it is. -/
+theorem C01_gen_sim_loaded (b : Block) (hb : FragBlock b) (code : List Instr)
+    (hcode : Gen.genProgram b = some code) (f : Nat) (lights : List Light) (σ' : S)
+    (h : Sem.run f b lights = (.normal, σ')) :
+    ∃ k, (run (Loader.load code) k (Vm.init lights)).status = .halted ∧
+      (Vm.finish (run (Loader.load code) k (Vm.init lights))).trace = .flush :: σ'.vm.trace := by
+  rw [load_fragment b hb code hcode]
+  exact C01_gen_sim_program b hb code hcode [] f lights σ' h
+
 /-! ## non-vacuity
 
 Two concrete scripts of the fragment, compiled with `Gen.genProgram`, loaded with `Loader.load`,
@@ -298,7 +308,14 @@ example : ∃ k, (run ⟨c01Code.toArray, []⟩ k (Vm.init c01Lights)).status = 
   C01_gen_sim_program c01Script c01Script_frag c01Code c01Script_code [] 200 c01Lights
     (Sem.run 200 c01Script c01Lights).2 (eq_of_fst c01Script_sem)
 
-/-- the loader leaves a script without routines as it is -/
+/-- the same through the loader -/
+example : ∃ k, (run (Loader.load c01Code) k (Vm.init c01Lights)).status = .halted ∧
+    (Vm.finish (run (Loader.load c01Code) k (Vm.init c01Lights))).trace =
+      .flush :: (Sem.run 200 c01Script c01Lights).2.vm.trace :=
+  C01_gen_sim_loaded c01Script c01Script_frag c01Code c01Script_code 200 c01Lights
+    (Sem.run 200 c01Script c01Lights).2 (eq_of_fst c01Script_sem)
+
+/-- the loader leaves a script without routines as it is (by evaluation) -/
 example : (Loader.load c01Code).code.toList = c01Code ∧ (Loader.load c01Code).routines = [] := by
   decide +kernel
 
